@@ -143,6 +143,18 @@ def unit_inventory(eng):
                 if isinstance(t, (ast.Attribute, ast.Subscript)) and frames.root_name(t) in STDLIB_ROOTS:
                     return "store %s" % frames.text(t)
         return None
+    def locale_dependent_open(node):
+        """open() of a text file without an explicit encoding decodes with the locale of the process (D51)"""
+        if isinstance(node, ast.Call) and isinstance(node.func, ast.Name) and node.func.id == "open":
+            mode = node.args[1] if len(node.args) > 1 else next((k.value for k in node.keywords if k.arg == "mode"), None)
+            if mode is not None and not isinstance(mode, ast.Constant):
+                return "open with a computed mode and no encoding" if not any(k.arg == "encoding" for k in node.keywords) else None
+            m = mode.value if mode is not None else "r"
+            if "b" not in m and not any(k.arg == "encoding" for k in node.keywords):
+                return "text-mode open without encoding"
+        return None
+    lo = [x for x in frames.syntactic_scan(pkg, locale_dependent_open) if x[0] not in ("devices",)]
+    ob(obs, unit, func, "every-text-file-is-opened-with-an-explicit-encoding(the locale of the process is not an input)", not lo, lo, kind="closed")
     ps = frames.syntactic_scan(pkg, process_state)
     ob(obs, unit, func, "no-call-or-store-that-changes-interpreter-or-process-wide-state(recursion limit, cwd, environment, locale, warnings filters, signal handlers, sys.*)", not ps, ps)
     nd = [x for x in frames.syntactic_scan(pkg, nondeterminism) if x[0] not in ("devices",)]
